@@ -126,7 +126,12 @@ def _regen_crctable(ctx):
 # Go → Lean translation of the CURRENT bodies of selected functions of REPO (translators/go2lean, notes/go2lean.md):
 # one regeneration step per unit, `go2lean:<unit>` → lean/FitModel/Generated/Go_<unit>.lean. A construct outside the
 # translator's subset is a broken tie (kind `tool`): the unit's file is replaced by a stub that does not compile.
-GO2LEAN_UNITS = ('crc16', 'basetype', 'proto', 'decoder', 'decoderbits', 'encoder')
+GO2LEAN_UNITS = ('crc16', 'basetype', 'proto', 'decoder', 'decoderbits', 'encoder',
+                 # units of translators/go2lean/targets_*.go (one file per unit)
+                 'encoderlru', 'protomarshal', 'readbuffer', 'readbuffercap', 'rawsize', 'kitint', 'decodersize',
+                 'kitangle',
+                 'encodermesgdef',
+                 )
 
 def _go2lean_step(unit):
     def step(ctx):
@@ -643,7 +648,10 @@ def prove(ctx, spec):
     proof = dict(obligations=0, discharged=0, axioms={}, checker_cmd=f'lake build FitProps.{prop} && lake env lean Audit/{prop}.lean  (#print axioms ⊆ {{propext, Classical.choice, Quot.sound}})')
     for r in spec.get('regen', []):
         if not REGEN[r](ctx):
-            return proof
+            if not r.startswith('go2lean:'):
+                return proof
+            # a unit whose translation failed leaves a stub that does not compile: go on to the build, so that the agreement
+            # theorems over the OTHER units (and everything that does not import the stub) are still checked and reported
     required = spec.get('theorems', [])
     ok, out = lake_build(ctx, [f'FitProps.{m}' for m in prop_modules(prop)] + spec.get('lean_extra_targets', []))
     try:
